@@ -9,5 +9,6 @@ CONSTANTS
   ServeFromIndexNotOrder = FALSE
   TrustScanOrder = TRUE
   SwapBeforeApply = FALSE
+  BatchOnSharedCopy = FALSE
 INVARIANT MigratedRebuildAgrees
 CHECK_DEADLOCK FALSE
